@@ -102,26 +102,26 @@ def query_side(ctx, h, res):
     res.rule("KEY", m)
     # object lifetime: a filter callable that was dropped after its query may hand its address (id) on to the next one
     k = 0
-    for d_, u_ in itertools.product(("FORWARD", "ANY"), c04.UHS[:2]):
+    for d_, u_, mk_ in itertools.product(("FORWARD", "ANY"), c04.UHS[:2], ("make_reject", "RejectUnhashable")):
         try:
-            outs = [lifetime_scenario(h, caching, d_, u_) for caching in (False, True)]
+            outs = [lifetime_scenario(h, caching, d_, u_, mk_) for caching in (False, True)]
         except Unknown as u:
             res.ob(False)
-            res.undecide(f"KEY-LIFETIME {d_},{u_}: {u}")
+            res.undecide(f"KEY-LIFETIME {d_},{u_},{mk_}: {u}")
             continue
         k += 1
         ok = outs[0][0] == outs[1][0]
-        res.ob(ok, sig=("key-lifetime", d_, u_))
+        res.ob(ok, sig=("key-lifetime", d_, u_, mk_))
         if not ok:
-            res.violation("KEY-LIFETIME", NB, "second-filter-allocated-where-the-first-one-lived",
-                          f"caching on: neighbors(a, {d_}, {u_}, f1) with a throw-away filter f1; f1 is dropped (nothing references it any more) and a new filter f2 is allocated at its address (id(f2) == the old "
+            res.violation("KEY-LIFETIME", NB, "second-filter-allocated-where-the-first-one-lived" + (",filters-are-unhashable-objects" if mk_ != "make_reject" else ""),
+                          f"caching on: neighbors(a, {d_}, {u_}, f1) with a throw-away filter f1" + (" (a callable object of a class defining __eq__ without __hash__)" if mk_ != "make_reject" else "") + f"; f1 is dropped (nothing references it any more) and a new filter f2 is allocated at its address (id(f2) == the old "
                           f"id(f1)); neighbors(a, {d_}, {u_}, f2) then answers {outs[1][0]} where the uncached answer is {outs[0][0]}",
                           replay="from edgegraph.structure import *\nfrom edgegraph.traversal import helpers\nVertex.NEIGHBOR_CACHING = True\na, b, c = Vertex(), Vertex(), Vertex(); DirectedEdge(a, b); DirectedEdge(a, c)\n"
                                  "print(helpers.neighbors(a, filterfunc=lambda e, v: v is b), helpers.neighbors(a, filterfunc=lambda e, v: v is c))   # CPython allocates the second lambda where the first one was")
     res.rule("KEY-LIFETIME", k)
 
 
-def lifetime_scenario(h, caching, d_="ANY", u_="NEIGHBOR"):
+def lifetime_scenario(h, caching, d_="ANY", u_="NEIGHBOR", maker="make_reject"):
     """-> (names of neighbors(a, f2), a, others, links): f1 rejects others[0], is used once and dropped; f2 rejects others[3]."""
     fn = h.fn(NB)
     C = c04.consts(h)
@@ -129,7 +129,7 @@ def lifetime_scenario(h, caching, d_="ANY", u_="NEIGHBOR"):
     h.reset()
     a, links, others = c04.build(h, rows)
     set_flag(h, caching)
-    mk = h.sym["make_reject"]
+    mk = h.sym[maker]
     f1 = h.I.call(mk, [others[0]], {})
     h.call(fn, a, C[d_], C[u_], f1)
     f2 = h.I.call(mk, [others[3]], {})
